@@ -221,11 +221,20 @@ def list_builtins():
             continue
         rows.append(f)
     by_ident = {}
+    aliases = {}
     for module, name, kind, arity, ident in rows:
+        aliases.setdefault(ident, []).append((module, name))
         cur = by_ident.get(ident)
         # prefer the defining module over the steel/base re-export, and a known arity over an unknown one
         if cur is None or (cur[0] == "steel/base" and module != "steel/base") or (cur[3] == "?" and arity != "?"):
             by_ident[ident] = (module, name, kind, arity)
+    # a procedure is denied when any of its names is (aliases!)
+    for ident, al in aliases.items():
+        for (m, n) in al:
+            if denied(m, n):
+                module, name, kind, arity = by_ident[ident]
+                by_ident[ident] = (m, n, kind, arity)
+                break
     fns = {}
     for module, name, kind, arity in by_ident.values():
         key = name if name not in fns else "%s@%s" % (name, module)
@@ -327,6 +336,9 @@ def run_builtins(ctx, classes, stats):
     tuples = oks = errs = 0
     raw = []
     stats["sweeps_truncated"] = sum(r["truncated"] for r in results)
+    fatal = [r["fatal"] for r in results if r.get("fatal")]
+    if fatal:
+        ctx.violation("C07-harness.txt", "the harness could not set up its engine: %s\n" % fatal[0], no_input=True)
     for r in results:
         tuples += r["tuples"]
         oks += r["ok"]
@@ -419,6 +431,8 @@ def builtin_worker(ctx, wid, queue):
                 hang = r
             elif f[0] == "MISSING":
                 done += 1
+            elif f[0] == "FATAL":
+                res["fatal"] = r
             elif f[0] == "TRUNC":
                 res["truncated"] += 1
             elif f[0] == "END":
@@ -426,6 +440,8 @@ def builtin_worker(ctx, wid, queue):
         if ended:
             todo = []
             continue
+        if res.get("fatal"):
+            break
         # the child died inside job `cur` (or between jobs)
         if cur is None:
             cur = todo[done] if done < len(todo) else None
